@@ -167,7 +167,8 @@ class Telomere:
 
         # Event log
         self._events: list[LifecycleEvent] = []
-        self._lock = threading.Lock()
+        # Re-entrant: tick() auto-starts a NASCENT lifecycle by calling start() while holding the lock
+        self._lock = threading.RLock()
 
         self._log_event("created", {"max_operations": max_operations})
 
